@@ -8,9 +8,7 @@ import gens
 def own_facet(plan, rec):
     """A check looks only at its own facets (DESIGN 4.3)."""
     f = rec.get("facet")
-    if f in ("obspanic",):
-        return True
-    if f == "res":
+    if f in ("obspanic", "res.panic"):
         return True
     return f in plan.get("own", plan["facets"].split(","))
 
@@ -58,7 +56,7 @@ PLANS["C02"] = {
 
 PLANS["C18"] = {
     "facets": "none",
-    "own": [],
+    "own": ["res.metrics"],
     "mc": [{
         "module": "MCMetrics",
         "quick": dict(MaxLen=5),
@@ -88,5 +86,25 @@ PLANS["C01"] = {
         "the dispatch depends only on (kind, capability set); all 32 capability sets and all kinds are enumerated, the space of dynamic Go types is sampled",
         "for the last arm the oracle is fmt's %v itself (logged by the driver), as the statement names it",
         "the static table of which pool values offer String/Error (items.go: otherCaps) is right",
+    ],
+}
+
+PLANS["C11"] = {
+    "facets": "errs",
+    "mc": [
+        {"module": "MCErrors",
+         "quick": dict(Family="ec", MaxHist=6, MaxEc=2, MaxRowsE=2, MaxCbs=1),
+         "thorough": dict(Family="ec", MaxHist=7, MaxEc=3, MaxRowsE=2, MaxCbs=1),
+         "properties": ["ErrsAppendOnly"]},
+        {"module": "MCErrors",
+         "quick": dict(Family="tbl", MaxHist=6, MaxEc=0, MaxRowsE=2, MaxCbs=1),
+         "thorough": dict(Family="tbl", MaxHist=8, MaxEc=0, MaxRowsE=2, MaxCbs=2),
+         "properties": ["ErrsAppendOnly"]},
+    ],
+    "random": [{"gen": gens.gen_errors}],
+    "min_scenarios": {"quick": 5000, "thorough": 50000},
+    "assumptions": [
+        "every error the driver creates is a distinct object with a distinct id; errors created by the library itself are logged as LIB",
+        "order is required only between errors of the same source (row, table, callback registration, container call)",
     ],
 }
